@@ -52,11 +52,27 @@ def _mat(c):
     tm = np.inf if c["tm"] == enc.INF else c["tm"] / den
     o = {"exc": "", "es": {}, "eca": {}}
     try:
+        import zlib
+        r = zlib.crc32(c["case"].encode())
+        if (r // 7) % 2:
+            data = np.asfortranarray(data)          # the same event matrix in column-major layout
         es = ES(data, timestamps=ts, taumax=tm, lag=c["lag"] / den)
         # all requests go to ONE object, in an order that depends on the case (each result is compared
         # with its definition, so a request that spoils a later one is seen)
-        import zlib
-        r = zlib.crc32(c["case"].encode())
+        if (r // 14) % 2:
+            # ... and half of the objects have been asked for significance levels before (surrogate shuffling,
+            # analytic Poisson levels): the analysis matrices are still those of the data
+            np.random.seed(r % 1000)
+            for kw in (dict(method="ES", surrogate="shuffle", n_surr=3),
+                       dict(method="ECA", surrogate="analytic", window_type=("advanced", "retarded", "symmetric")[r % 3]),
+                       dict(method="ECA", surrogate="analytic", window_type=("retarded", "symmetric", "advanced")[r % 3]),
+                       dict(method="ECA", surrogate="shuffle", n_surr=3, window_type="symmetric")):
+                if kw["method"] == "ECA" and c["tm"] == enc.INF:
+                    continue
+                try:
+                    es.event_analysis_significance(**kw)
+                except Exception:
+                    pass
         opts = ["directed", "symmetric", "antisym", "mean", "max", "min"]
         opts = opts[r % 6:] + opts[:r % 6]
         wts = ["advanced", "retarded", "symmetric"]
